@@ -11,6 +11,8 @@
 //	-mode api    real api.SSHSign / api.SSHRenew / api.SSHRekey handlers with an identity CSR / an identity
 //	             certificate as TLS client certificate and an aged SSHPOP certificate; and the migration of
 //	             ca.json provisioners into the admin database (enableAdmin) followed by a reload
+//	-mode conv   claims through authority.ProvisionerToLinkedca / ProvisionerToCertificates / JSON, both directions,
+//	             every provisioner type, every subset of the nine durations
 //	-mode chains go/ast over the provisioner and authority sources: option lists per provisioner, cast kinds,
 //	             order of application — compared with the Lean tables the chain theorems are about
 //	-mode prop   oracle: the property predicate itself evaluated on the implementation's output
@@ -36,6 +38,7 @@ type Case struct {
 	Renew  *RenewCase  `json:",omitempty"`
 	ACME   *ACMECase   `json:",omitempty"`
 	API    *APICase    `json:",omitempty"`
+	Conv   *ConvCase   `json:",omitempty"`
 }
 
 func caseField(k *Case) string {
@@ -61,6 +64,9 @@ func emit(o *c.Out, k *Case) {
 		for _, li := range k.Renew.runAll() {
 			o.Case(li[0]+caseField(k), li[1])
 		}
+	case k.Conv != nil:
+		line, impl := k.Conv.run()
+		o.Case(line+caseField(k), impl)
 	case k.API != nil:
 		for _, li := range k.API.runAll() {
 			o.Case(li[0]+caseField(k), li[1])
@@ -88,7 +94,7 @@ func main() {
 	n := flag.Int("n", 2000, "number of generated cases")
 	out := flag.String("out", "", "output file (input<TAB>impl)")
 	replay := flag.String("replay", "", "file of model input lines (case=… field) to re-run instead of generating")
-	flag.StringVar(&mode, "mode", "unit", "unit | e2e | acme | api | chains | prop")
+	flag.StringVar(&mode, "mode", "unit", "unit | e2e | acme | api | conv | chains | prop")
 	flag.Parse()
 	o, err := c.NewOut(*out)
 	if err != nil {
